@@ -3,7 +3,14 @@
 `run_dt(run)` is called at the end of valcomp.run_val with the `Run` object of valcomp (run.diff(cases) = same lines to the harness
 and to the model, replies must be equal; run.impl_only(cases); run.get(case); run.cx = the check context).
 
-Differential only (the laws on the implementation's replies are in valcomp.derived_types / dt_oracle).  Pools:
+Differential (pools below), then laws on the implementation's replies that share nothing with the model (`laws_dt`):
+  dt_ascii_digits      an accepted value is written with ASCII digits (RFC 6991 pattern as XSD reads it)              -> F414
+  dt_zone_range        the zone hour of an accepted value is 00..23 (RFC 3339 sec. 5.6 time-hour)                     -> F416
+  dt_zone_sign         the stored instant is the local time minus the offset with the sign of the zone character      -> F415
+  dt_canon_idempotent  the canonical form of an accepted value is accepted and is its own canonical form              -> F417
+  dt_sort_far          the sort callback orders two instants 2^31 s or more apart by time (implementation only:
+                       the pinned tree computes (int)difftime(..), UBSan stops the harness)                           -> F413
+`classify_dt` recognises exactly these instances.  Pools:
   grid      every field at and beyond its range, leap years, time_t edges, fractions 0..12 digits, zones at their edges
   damage    one-character replacement / insertion / deletion at every position of a few valid values, truncations, junk around
   libc      what atoi / strtol accept at the fixed offsets (blanks, signs, short and long digit runs, ':' where the zone starts)
@@ -12,8 +19,9 @@ Differential only (the laws on the implementation's replies are in valcomp.deriv
   cmp       all pairs inside clusters of close instants (fraction / zone / -00:00 variants), random pairs less than 2^31 s apart
   lyb       value -> LYB -> value for the accepted values; hand-made LYB values (sizes 0..12, flag byte, non-digits, time_t edges)
 
-Left out on purpose (undefined behaviour in the C, UBSan stops the harness; reported as findings by the builder):
-  * cmp of two instants 2^31 s or more apart: lyplg_type_sort_date_and_time returns (int)difftime(..);
+Left out of the differential on purpose (undefined behaviour in the C, UBSan stops the harness):
+  * cmp of two instants 2^31 s or more apart: lyplg_type_sort_date_and_time returns (int)difftime(..) (finding F413; a few such
+    lines run on the implementation only, see dt_sort_far);
   * a year field below INT_MIN + 1900 / a month field of INT_MIN (atoi(..) - 1900, atoi(..) - 1), zone hours beyond 2^63 / 3600;
   * a LYB time_t whose year is in (INT_MAX, INT_MAX + 1900] (tm_year + 1900 in the printf arguments).
 """
@@ -260,6 +268,104 @@ def pool_unlyb(cx, rng):
     return out
 
 
+RE_ASCII = re.compile(rb"(\d{4})-(\d{2})-(\d{2})T(\d{2}):(\d{2}):(\d{2})(\.\d+)?(Z|([+-])(\d{2}):(\d{2}))")       # bytes: \d = [0-9]
+RE_UNI = re.compile(r"\d{4}-\d{2}-\d{2}T\d{2}:\d{2}:\d{2}(\.\d+)?(Z|[+-]\d{2}:\d{2})")                              # str: \d = Unicode Nd
+RE_BAD_YEAR = re.compile(rb"(-\d{3,}|\d{5,})-")
+FAR = [(b"1900-01-01T00:00:00Z", b"2020-01-01T00:00:00Z"), (b"2038-01-19T03:14:08Z", b"1970-01-01T00:00:00Z"),
+       (b"9999-12-31T23:59:59Z", b"0001-01-01T00:00:00Z"), (b"1970-01-01T00:00:00Z", b"2038-01-19T03:14:08Z"),
+       (b"0001-01-01T00:00:00Z", b"9999-12-31T23:59:59Z"), (b"1951-12-13T20:45:52Z", b"2020-01-01T00:00:00.5-00:00")]
+
+
+def sign(x):
+    return (x > 0) - (x < 0)
+
+
+def laws_dt(run, lex, acc):
+    """laws on the replies of the implementation (see the module text); `acc`: accepted lexical -> (instant of the canonical form, canonical)"""
+    cx = run.cx
+    for x, (t, c) in acc.items():
+        case = {"type": DT, "lexical_hex": hexs(x), "lexical": x.decode("latin1"), "canonical": c.decode("latin1"), "reply": ["ok", hexs(c)]}
+        m = RE_ASCII.fullmatch(x)
+        if not m:
+            try:
+                u = x.decode("utf-8")
+            except UnicodeDecodeError:
+                u = None
+            uni = bool(u and RE_UNI.fullmatch(u) and not u.isascii())
+            cx.count(("dt-law-ascii", x), True, "val:dt:law:ascii-digits:violated")
+            cx.fail("val", "date-and-time accepts a value that is not in the lexical space of the type (RFC 6991 pattern: ASCII digits)",
+                    dict(case, law="dt_ascii_digits", unicode_digits=uni))
+            continue
+        cx.count(("dt-law-ascii", x), True, "val:dt:law:ascii-digits:ok")
+        y, mo, d, h, mi, sec = (int(m.group(i)) for i in range(1, 7))
+        local = ((days_from_civil(y, mo, d) * 24 + h) * 60 + mi) * 60 + sec        # a day beyond the month / second 60 run on (F107 is not this law)
+        if m.group(9):
+            zs, zh, zm = m.group(9), int(m.group(10)), int(m.group(11))
+            off = (zh * 3600 + zm * 60) * (-1 if zs == b"-" else 1)
+            zc = dict(case, zone_sign=zs.decode(), zone_hour=zh, zone_minute=zm, instant=t, expected_instant=local - off)
+            if zh > 23 or zm > 59:
+                cx.count(("dt-law-zone", x), True, "val:dt:law:zone-range:violated")
+                cx.fail("val", "date-and-time accepts a zone offset outside RFC 3339 (time-hour 00..23, time-minute 00..59)", dict(zc, law="dt_zone_range"))
+                continue
+            cx.count(("dt-law-zone", x), True, "val:dt:law:zone-range:ok")
+        else:
+            off = 0
+            zc = dict(case, zone_sign="Z", zone_hour=0, zone_minute=0, instant=t, expected_instant=local)
+        if t != local - off:
+            cx.count(("dt-law-instant", x), True, "val:dt:law:instant:violated")
+            cx.fail("val", "date-and-time stores another instant than local time minus zone offset (RFC 3339 sec. 4.2)", dict(zc, law="dt_zone_sign"))
+        else:
+            cx.count(("dt-law-instant", x), True, "val:dt:law:instant:ok")
+        r = run.get("validate %s %s" % (DT, hexs(c)))
+        if r[:2] != ["ok", hexs(c)]:
+            cx.count(("dt-law-idem", x), True, "val:dt:law:canonical-idempotent:violated")
+            cx.fail("val", "the canonical form of an accepted date-and-time value is not accepted as its own canonical form", dict(case, law="dt_canon_idempotent", restore=r))
+        else:
+            cx.count(("dt-law-idem", x), True, "val:dt:law:canonical-idempotent:ok")
+    # the sort callback on instants 2^31 s and more apart: implementation only, a crash is recorded by vcheck (classify_dt: F413)
+    far = FAR[:cx.n(2, len(FAR))]
+    lines = ["cmp %s %s %s" % (DT, hexs(a), hexs(b)) for a, b in far]
+    run.impl_only(lines, count_kind="val:dt:law:sort-far")
+    for (a, b), l in zip(far, lines):
+        r = run.get(l)
+        if r[0] != "ok":
+            continue
+        ta = instant(unhex(run.get("validate %s %s" % (DT, hexs(a)))[1])) if run.get("validate %s %s" % (DT, hexs(a)))[0] == "ok" else None
+        tb = instant(unhex(run.get("validate %s %s" % (DT, hexs(b)))[1])) if run.get("validate %s %s" % (DT, hexs(b)))[0] == "ok" else None
+        if ta is None or tb is None:
+            continue
+        if int(r[2]) != sign(ta - tb) or (r[4], r[5]) != (("a", "a") if ta < tb else ("b", "b")):
+            cx.fail("val", "date-and-time sort callback / leaf-list order does not follow the instants of two values far apart",
+                    {"type": DT, "law": "dt_sort_far", "line": l, "reply": r, "instant_a": ta, "instant_b": tb})
+
+
+def classify_dt(component, what, case):
+    """-> id of the date-and-time finding this failing case is an instance of, or None"""
+    if component != "val" or not isinstance(case, dict):
+        return None
+    line = case.get("line") or ""
+    if case.get("crash"):
+        # F413: (int)difftime(..) in lyplg_type_sort_date_and_time
+        if (" cmp %s " % DT) in line and "date_and_time.c" in case.get("stderr", "") and "outside the range of representable values of type 'int'" in case.get("stderr", ""):
+            return "F413"
+        return None
+    if case.get("type") != DT:
+        return None
+    law = case.get("law")
+    if law == "dt_sort_far" and abs(case.get("instant_a", 0) - case.get("instant_b", 0)) >= 2**31:
+        return "F413"       # no sanitizer: the conversion yields INT_MIN, the later value sorts first
+    if law == "dt_ascii_digits" and case.get("unicode_digits"):
+        return "F414"
+    if law == "dt_zone_sign" and case.get("zone_sign") == "-" and case.get("zone_hour") == 0 and case.get("zone_minute", 0) > 0 \
+            and case.get("instant", 0) - case.get("expected_instant", 0) == -2 * 60 * case["zone_minute"]:
+        return "F415"
+    if law == "dt_zone_range" and case.get("zone_sign") == "-" and 24 <= case.get("zone_hour", 0) <= 99 and case.get("zone_minute", 99) <= 59:
+        return "F416"
+    if law == "dt_canon_idempotent" and RE_BAD_YEAR.match(case.get("canonical", "").encode("latin1")):
+        return "F417"
+    return None
+
+
 def run_dt(run):
     cx = run.cx
     rng = cx.sub_rng("valdt")
@@ -309,6 +415,7 @@ def run_dt(run):
     run.diff(cases)
     n_idem = sum(1 for x, (_, c) in acc.items() if run.get("validate %s %s" % (DT, hexs(c)))[:2] != ["ok", hexs(c)])
     cx.dist["val:dt:canonical-not-restorable"] = n_idem
+    laws_dt(run, lex, acc)
 
     # cmp: only pairs the sort callback is defined on (less than 2^31 seconds apart, see the module text)
     LIM = 2**31
